@@ -255,6 +255,14 @@ func genScript(s *simrt.Sim, maxOps int) []opKind {
 func genScenario(s *simrt.Sim, maxTasks, maxOps int) []*lifetime {
 	n := 2 + s.Choose(simrt.Bound(3, 5))
 	var ls []*lifetime
+	// one scenario in three does not start at zero: an earlier deployment with a huge interval handed out one number and
+	// was abandoned, which leaves the stored counter just below a power of 256 (the numbers of the following lifetimes
+	// then cross a byte, word or double-word boundary of the stored representation inside one lease)
+	if s.Choose(3) == 2 {
+		shift := []uint{8, 16, 32, 48}[s.Choose(4)]
+		ls = append(ls, &lifetime{interval: uint64(1)<<shift - uint64(1+s.Choose(3)), scripts: [][]opKind{{opNext}}})
+		s.Probe("counter-starts-just-below-a-power-of-256")
+	}
 	for i := 0; i < n; i++ {
 		l := &lifetime{interval: simrt.Knob[uint64](s, 1, 2, 3, 5, 8)}
 		nt := 1 + s.Choose(maxTasks)
